@@ -198,6 +198,42 @@ pub fn gen_dense(arch: &str, len: usize, seed: u64) -> Vec<u8> {
     v
 }
 
+/// Opcode-dense code: branch opcodes 1..4 bytes apart with every kind of byte where the coder looks for a
+/// high byte (0x00, 0xFF, other), so that coder state carried from one `code()` call to the next (the x86
+/// prev_mask, an instruction split by the call boundary) matters at every offset relative to an opcode pair.
+/// Architectures other than x86 use the token-dense generator with unit-sized fillers.
+pub fn gen_opdense(arch: &str, len: usize, seed: u64) -> Vec<u8> {
+    if arch != "x86" {
+        return gen_dense(arch, len, seed ^ 0x0D);
+    }
+    let mut r = Rng::new(seed ^ 0x0DE5);
+    let mut v = Vec::with_capacity(len + 8);
+    let pick = |r: &mut Rng| -> u8 {
+        match r.below(8) {
+            0 | 1 => 0x00,
+            2 | 3 => 0xFF,
+            4 => 0xE8,
+            5 => 0xE9,
+            _ => r.byte(),
+        }
+    };
+    while v.len() < len {
+        v.push(if r.chance(1, 2) { 0xE8 } else { 0xE9 });
+        // gap of 0..4 bytes before the next opcode; now and then a complete convertible operand
+        if r.chance(1, 4) {
+            let op = operand(&mut r).to_le_bytes();
+            v.extend_from_slice(&[op[0], op[1], op[2], if r.chance(1, 2) { 0x00 } else { 0xFF }]);
+        } else {
+            for _ in 0..r.below(5) {
+                let b = pick(&mut r);
+                v.push(b);
+            }
+        }
+    }
+    v.truncate(len);
+    v
+}
+
 /// A branch instruction whose operand bytes cannot be mistaken for an opcode by a scan that is shifted against
 /// the instruction grid (needed after an odd-sized write on the writer as built).
 fn known_token(arch: &str, r: &mut Rng) -> Vec<u8> {
@@ -528,6 +564,7 @@ pub fn make_data(d: &DataSpec, arch: &str) -> Result<(Vec<u8>, Vec<(usize, usize
     let arch = d.arch.as_deref().unwrap_or(arch);
     Ok(match d.gen.as_str() {
         "dense" => (gen_dense(arch, d.len, d.seed), vec![]),
+        "opdense" => (gen_opdense(arch, d.len, d.seed), vec![]),
         "known" => gen_known(arch, d.len, d.seed, d.density.unwrap_or(10), &d.force),
         "file" => {
             let b = std::fs::read(&d.file).map_err(|e| format!("{}: {e}", d.file))?;
